@@ -683,7 +683,7 @@ func (c *Ctx) indexGuarded(fd *ast.FuncDecl, ix *ast.IndexExpr) bool {
 	base := stripConv(ix.X)
 	for _, cl := range c.literalsAt(fd, ix) {
 		be, ok := unparen(cl.e).(*ast.BinaryExpr)
-		if !ok || cl.neg {
+		if !ok {
 			continue
 		}
 		call, ok := unparen(be.X).(*ast.CallExpr)
@@ -698,7 +698,34 @@ func (c *Ctx) indexGuarded(fd *ast.FuncDecl, ix *ast.IndexExpr) bool {
 		if !isInt {
 			continue
 		}
-		if be.Op == token.GTR && m >= k || be.Op == token.GEQ && m > k || be.Op == token.EQL && m > k {
+		// lower bound on len implied by the literal (with its polarity); -1: none
+		lb := -1
+		op := be.Op
+		if cl.neg {
+			switch op {
+			case token.LSS:
+				op = token.GEQ
+			case token.LEQ:
+				op = token.GTR
+			case token.NEQ:
+				op = token.EQL
+			case token.EQL:
+				op = token.NEQ
+			default:
+				continue
+			}
+		}
+		switch op {
+		case token.GTR:
+			lb = m + 1
+		case token.GEQ, token.EQL:
+			lb = m
+		case token.NEQ:
+			if m == 0 {
+				lb = 1
+			}
+		}
+		if lb > k {
 			return true
 		}
 	}
@@ -746,6 +773,42 @@ func (c *Ctx) loopBounded(fd *ast.FuncDecl, ix *ast.IndexExpr) bool {
 		}
 		return true
 	})
+	// the key of a range over an array, used to index an array that is at least as long (both lengths are types)
+	if arr, isArr := c.typeOf(ix.X).Underlying().(*types.Array); isArr && !bounded {
+		ast.Inspect(fd.Body, func(n ast.Node) bool {
+			rs, ok := n.(*ast.RangeStmt)
+			if !ok || rs.Key == nil || ix.Pos() < rs.Body.Pos() || ix.End() > rs.Body.End() {
+				return true
+			}
+			k, ok := rs.Key.(*ast.Ident)
+			if !ok || c.objOf(k) != o {
+				return true
+			}
+			if src, isArr := c.typeOf(rs.X).Underlying().(*types.Array); isArr && src.Len() <= arr.Len() {
+				// the key must not be reassigned in the body
+				written := false
+				ast.Inspect(rs.Body, func(m ast.Node) bool {
+					switch x := m.(type) {
+					case *ast.AssignStmt:
+						for _, l := range x.Lhs {
+							if lid, ok := l.(*ast.Ident); ok && c.objOf(lid) == o {
+								written = true
+							}
+						}
+					case *ast.IncDecStmt:
+						if lid, ok := x.X.(*ast.Ident); ok && c.objOf(lid) == o {
+							written = true
+						}
+					}
+					return true
+				})
+				if !written {
+					bounded = true
+				}
+			}
+			return true
+		})
+	}
 	return bounded
 }
 
